@@ -83,9 +83,11 @@ func c16CheckK(c c16KCase) h.Result {
 		ch <- out{a, b}
 	}()
 	var o out
+	wd := time.NewTimer(c16Watchdog)
 	select {
 	case o = <-ch:
-	case <-time.After(c16Watchdog):
+		wd.Stop()
+	case <-wd.C:
 		return r.NT(true).Fail("lattice.FindShortVector:does-not-terminate", "k=%x (no result after %v)", []byte(c.K), c16Watchdog).Result()
 	}
 	d0, d1 := c16I128(o.d0), c16I128(o.d1)
